@@ -247,6 +247,86 @@ pub unsafe extern "C" fn getenv(name: *const libc::c_char) -> *mut libc::c_char 
     e.2.as_ref().map(|c| c.as_ptr() as *mut libc::c_char).unwrap_or(std::ptr::null_mut())
 }
 
+// ---------------------------------------------------------------------------
+// threads the code under test creates itself (std::thread::spawn / scope)
+// ---------------------------------------------------------------------------
+static FOREIGN_SEED: AtomicU64 = AtomicU64::new(0);
+static FOREIGN_THREADS: AtomicU64 = AtomicU64::new(0);
+static REAL_PTHREAD_CREATE: AtomicUsize = AtomicUsize::new(0);
+thread_local! {
+    static CHILDREN: Cell<u64> = const { Cell::new(0) };
+}
+
+/// seed for the start-up delays of foreign threads; 0 = no delay (reference)
+pub fn set_foreign_seed(seed: u64) {
+    FOREIGN_SEED.store(seed, SeqCst);
+    FOREIGN_THREADS.store(0, SeqCst);
+}
+pub fn foreign_threads() -> u64 {
+    FOREIGN_THREADS.load(SeqCst)
+}
+
+type StartFn = extern "C" fn(*mut c_void) -> *mut c_void;
+type PthreadCreateFn = unsafe extern "C" fn(*mut libc::pthread_t, *const libc::pthread_attr_t, StartFn, *mut c_void) -> c_int;
+
+struct Foreign {
+    start: StartFn,
+    arg: *mut c_void,
+    tid: u64,
+    delay_ns: u64,
+}
+
+extern "C" fn foreign_trampoline(p: *mut c_void) -> *mut c_void {
+    let f = unsafe { Box::from_raw(p as *mut Foreign) };
+    // the thread belongs to the simulated process: its entropy and clock reads are simulated too
+    set_thread_id(f.tid);
+    if f.delay_ns > 0 {
+        // "slow node" fault: a seeded start-up delay, so that the order in which such threads
+        // reach their rendez-vous (channel sends, atomic updates, joins) follows the seed
+        let ts = timespec { tv_sec: 0, tv_nsec: f.delay_ns as c_long };
+        unsafe { libc::nanosleep(&ts, std::ptr::null_mut()) };
+    }
+    (f.start)(f.arg)
+}
+
+/// Interposed `pthread_create`: threads created BY simulated threads (i.e. by the code under
+/// test; the harness creates its own threads from the pass-through driver thread) get a
+/// simulated identity and a seeded start-up delay. They still run under the OS scheduler — the
+/// simulator does not own their interleaving (DESIGN.md §9).
+#[no_mangle]
+pub unsafe extern "C" fn pthread_create(thread: *mut libc::pthread_t, attr: *const libc::pthread_attr_t, start: StartFn, arg: *mut c_void) -> c_int {
+    let real: PthreadCreateFn = {
+        let mut p = REAL_PTHREAD_CREATE.load(SeqCst);
+        if p == 0 {
+            p = libc::dlsym(libc::RTLD_NEXT, b"pthread_create\0".as_ptr() as *const _) as usize;
+            if p == 0 {
+                libc::abort();
+            }
+            REAL_PTHREAD_CREATE.store(p, SeqCst);
+        }
+        std::mem::transmute::<usize, PthreadCreateFn>(p)
+    };
+    let parent = TID.with(|t| t.get());
+    if parent == 0 {
+        return real(thread, attr, start, arg);
+    }
+    let k = CHILDREN.with(|c| {
+        let v = c.get();
+        c.set(v + 1);
+        v
+    });
+    FOREIGN_THREADS.fetch_add(1, SeqCst);
+    let tid = 1_000_000 + (mix3(parent, k, 0xF0E1) >> 24);
+    let seed = FOREIGN_SEED.load(SeqCst);
+    let delay_ns = if seed == 0 { 0 } else { mix3(seed, tid, 0xDE1A) % 600_000 };
+    let f = Box::into_raw(Box::new(Foreign { start, arg, tid, delay_ns }));
+    let rc = real(thread, attr, foreign_trampoline, f as *mut c_void);
+    if rc != 0 {
+        drop(Box::from_raw(f));
+    }
+    rc
+}
+
 /// real wall clock for evidence (`wall_s`), never the simulated one
 pub fn real_now_s() -> f64 {
     unsafe {
